@@ -105,11 +105,12 @@ Lemma inv5_step_w : forall c s i ch s' l,
 Proof.
   intros c s i ch s' l Hhw HI1 HI2 HI3 HI4 [HJw HJr] H Ht. unfold step_w in H.
   destruct (getw s i) as [pc|] eqn:Hg; [|discriminate]. unfold getw in Hg.
-  assert (Hsc : w_sc pc = false) by (destruct (i1_w _ HI1 _ _ Hg) as (_ & _ & Hx); exact Hx).
+  assert (Hscx : w_scx pc = true -> closed s = true) by (destruct (i1_w _ HI1 _ _ Hg) as (_ & _ & Hx); exact Hx).
   assert (Hlen : (i < length (ws s))%nat) by (apply nth_error_Some; congruence).
   pose proof (HI4 _ _ Hg) as Hi4. pose proof (i3_c3 _ HI3) as Hc3.
   unfold Jw, Jr in HJw, HJr.
-  step_cases H; free_hyps; simpl in Hsc; try discriminate Hsc.
+  step_cases H; free_hyps; simpl in Hscx.
+  all: simpl in Ht; try discriminate Ht.
   all: unfold setw, hw_exit in *.
   all: repeat match goal with |- context [if ?b then _ else _] => destruct b eqn:? end.
   all: repeat match goal with |- context [match ?b with SWr _ => _ | SEnd => _ end] => destruct b eqn:? end.
@@ -117,6 +118,7 @@ Proof.
   all: try (split; intros Hc Hw'; right; right; simpl;
             first [ apply existsb_upd_in; [rewrite ?length_ws_add_task; exact Hlen | reflexivity]
                   | eapply existsb_nth; [exact Hg | reflexivity] ]; fail).
+  all: try (specialize (Hscx eq_refl); split; intros Hc Hw'; simpl in *; congruence).
   - (* WAcq -> WIdle *)
     split; intros Hc Hw'; simpl in *.
     + destruct (HJw Hc Hw') as [H1|[H1|H1]]; auto. right; right. eapply existsb_upd_keep; eauto.
